@@ -312,6 +312,21 @@ def check_tree(tree, freqs, st, viol, keys, label):
                 bad("C01/array-vs-single", f"element {e_obj.get_symbol()}: array {za[:2]} vs single {zs[:2]}")
         except Exception:
             pass
+    # every nested connection of the main tree obeys the laws on its own (Connection.get_impedances)
+    for sub_node, sub_obj in list(_nested(tree, top_obj))[:6]:
+        r3 = Ref(st, freqs[:4])
+        rv = r3.eval_all(sub_node, sub_obj)
+        if any(v is None or v == OO or not np.isfinite(v) for v in rv) or r3.entirely_open_nested:
+            continue
+        try:
+            with np.errstate(all="ignore"):
+                zl = sub_obj.get_impedances(freqs[:4])
+        except Exception as ex:
+            bad(f"C01/nested-connection-raised:{type(ex).__name__}", f"{G.brief(G.nf(sub_node))}: {ex}")
+            continue
+        st["nested_connection_compared"] = st.get("nested_connection_compared", 0) + 1
+        if not all(_close(complex(a), b) for a, b in zip(zl, rv)):
+            bad("C01/composition-law", f"nested connection {G.brief(G.nf(sub_node))}: {zl[:2]} vs reference {rv[:2]}")
     # sub-circuits of containers obey the same laws
     for e_spec, e_obj in _containers(tree, top_obj):
         for k, sub in e_spec["subs"].items():
@@ -333,6 +348,15 @@ def check_tree(tree, freqs, st, viol, keys, label):
             if not all(_close(complex(a), b) for a, b in zip(zl, rv)):
                 bad("C01/composition-law", f"sub-circuit {k} of {e_spec['sym']}: {zl[:2]} vs reference {rv[:2]}")
     keys.append((G.brief(want), tuple(sorted(kinds.items()))))
+
+
+def _nested(node, obj, top=True):
+    if node["t"] == "E":
+        return
+    if not top:
+        yield node, obj
+    for c, o in zip(node["c"], list(obj)):
+        yield from _nested(c, o, False)
 
 
 def _containers(node, obj):
